@@ -26,7 +26,7 @@ RULE = ('Hypothesis argument strings (printable ASCII, TAB, LF where the positio
         'metacharacters: quotes, $, $$, ${x}, `, ;, &, |, *, ?, [], {}, ~, !, #, %, <, >, @, backslashes, leading/trailing blanks, empty string) in '
         'every position of one generated project: custom_target plain / capture / feed / env / newline (pickled wrapper), `&&` separator, run_target, '
         'generator arguments, test() args and env, per-target c_args (incl. -D with backslashes) and link_args, add_project_arguments, '
-        'add_global_arguments, project/global compile and link arguments given to c and cpp in one call and then per language (each step of each language receives exactly its own); with and without response files (MESON_RSP_THRESHOLD=0). Actual argv = what a dumper program records when the '
+        'add_global_arguments, placeholders (@CURRENT_SOURCE_DIR@, @SOURCE_ROOT@, @BUILD_ROOT@, @OUTDIR@, @PRIVATE_DIR@) embedded in longer words of custom_target / run_target commands (the text around the placeholder arrives unchanged), project/global compile and link arguments given to c and cpp in one call and then per language (each step of each language receives exactly its own); with and without response files (MESON_RSP_THRESHOLD=0). Actual argv = what a dumper program records when the '
         'build.ninja statement is expanded by harness/refninja.py and run by /bin/sh, or by real `meson test`. non-trivial = the position holds >=1 '
         'argument with a shell/ninja/rsp metacharacter; distinct by (position, mode, arguments).')
 ASSUMPTIONS = [
@@ -153,6 +153,10 @@ def cases(draw: T.Any) -> dict:
         'bl': [draw(args_list(lo=1, hi=2)), draw(args_list(lo=1, hi=2)), draw(args_list(lo=1, hi=2))],
         'twotok': draw(st.lists(st.sampled_from(['x', 'A_1', 'v=1', 'inc dir', 'q']), min_size=2, max_size=4)),
     }
+    # placeholders embedded in longer words: only the placeholder itself is rewritten, the text around it arrives byte for byte
+    junk = st.sampled_from(['', '//', 'a/../', 'file://', './', 'x//y/', '--opt=', 's|^', '/./z', '/', '//t//', '/||;s|//|/|g', '/../up/', ' '])
+    c['tpl'] = [[draw(junk), draw(st.sampled_from(['CURRENT_SOURCE_DIR', 'SOURCE_ROOT', 'BUILD_ROOT', 'OUTDIR', 'PRIVATE_DIR'])), draw(junk)]
+                for _ in range(draw(st.integers(2, 4)))]
     if draw(st.booleans()):
         # a second language: arguments given to several languages in one call, then more for one language only
         c['ml'] = {'both': draw(args_list(lo=1, hi=2)), 'cpp': draw(args_list(lo=1, hi=2)), 'c': draw(args_list(lo=1, hi=2)),
@@ -232,6 +236,12 @@ def build_files(c: dict, logdir: str) -> T.Dict[str, T.Union[str, bytes]]:
     envd = ', '.join(f"'VERIF_E{i}': {mq(v)}" for i, v in enumerate(c['ct_env']))
     lines.append(f"custom_target('ct_env', output: 'ct_env.out', env: {{{envd}}}, command: [dump, '--log', {L}, '--id', 'ct_env', '--touch', '@OUTPUT@', '--', {mlist(c['ct_env_args'])}])")
     lines.append(f"custom_target('ct_nl', output: 'ct_nl.out', command: [dump, '--log', {L}, '--id', 'ct_nl', '--touch', '@OUTPUT@', '--', {mlist(c['ct_nl'])}])")
+    if c.get('tpl'):
+        targs = [pre + '@' + name + '@' + suf for pre, name, suf in c['tpl']]
+        lines.append(f"custom_target('ct_tpl', output: 'ct_tpl.out', command: [dump, '--log', {L}, '--id', 'ct_tpl', '--touch', '@OUTPUT@', '--', {mlist(targs)}])")
+        rargs = [pre + '@' + name + '@' + suf for pre, name, suf in c['tpl'] if name in ('CURRENT_SOURCE_DIR', 'SOURCE_ROOT', 'BUILD_ROOT')]
+        if rargs:
+            lines.append(f"run_target('rt_tpl', command: [dump, '--log', {L}, '--id', 'rt_tpl', '--', {mlist(rargs)}])")
     lines.append(f"run_target('rt', command: [dump, '--log', {L}, '--id', 'rt', '--', {mlist(c['rt'])}])")
     if c.get('rt_tw'):
         # twin commands: same program, same options, argument lists that differ only in where the words are split;
@@ -460,6 +470,33 @@ def check_case(c: dict, workdir: str, ev: T.Optional[Evidence], confirm_sub: boo
         if f:
             return f
         pos_results.append(('run_target', c['rt']))
+        if c.get('tpl'):
+            where = {'CURRENT_SOURCE_DIR': src, 'SOURCE_ROOT': src, 'BUILD_ROOT': bld, 'OUTDIR': bld, 'PRIVATE_DIR': None}
+            for ident, out, items in (('ct_tpl', 'ct_tpl.out', c['tpl']),
+                                      ('rt_tpl', 'meson-internal__rt_tpl', [t for t in c['tpl'] if t[1] in ('CURRENT_SOURCE_DIR', 'SOURCE_ROOT', 'BUILD_ROOT')])):
+                if not items:
+                    continue
+                rr, err = run_out(out)
+                if rr is None:
+                    return Failure('placeholder/no-statement', c, err)
+                if rr.rc != 0:
+                    return Failure('placeholder/command-fails', c, f'{ident}: the generated command failed (exit {rr.rc}):\n$ {rr.command}\n{rr.output[-800:]}')
+                recs = read_records(logdir, ident)
+                if len(recs) != 1 or len(recs[0]['argv']) != len(items):
+                    return Failure('placeholder/argument-count', c, f'{ident}: expected one execution with {len(items)} arguments, saw {[r["argv"] for r in recs]}')
+                for (pre, name, suf), got in zip(items, recs[0]['argv']):
+                    mid = got[len(pre):len(got) - len(suf)] if suf else got[len(pre):]
+                    ok = got.startswith(pre) and got.endswith(suf) and len(got) >= len(pre) + len(suf) and mid != ''
+                    if ok and where[name] is not None:
+                        # "may be an absolute or a relative to current workdir path": any spelling of the right directory
+                        ok = os.path.realpath(os.path.join(bld, mid)) == os.path.realpath(where[name])
+                    elif ok:
+                        ok = os.path.realpath(os.path.join(bld, mid)).startswith(os.path.realpath(bld) + os.sep)
+                    if not ok:
+                        return Failure(f'placeholder/surrounding-text-changed:{name}', c,
+                                       f'{ident}: the argument {pre + "@" + name + "@" + suf!r} arrived as {got!r}: only the placeholder may be replaced '
+                                       f'(by a spelling of {where[name] or "the private directory of the target"}), the text before and after it must arrive unchanged\n$ {rr.command}')
+            pos_results.append(('custom_target/embedded-placeholder', [p + '@' + n + '@' + s_ for p, n, s_ in c['tpl']]))
         if c.get('rt_tw'):
             for name, want_args in zip(('rt_tw1', 'rt_tw2'), twin_lists(c)):
                 for pth in glob.glob(os.path.join(logdir, 'rt_tw.*.json')):
